@@ -237,6 +237,23 @@ CHECKS["C15"] = dict(
     technique="Lean 4 proof (totality via regenerated except clause, fuel-independence of every modelled loop) + mutation-based differential correspondence",
     design="5/C15")
 
+CHECKS["C17"] = dict(
+    text="Model: a transition system over asyncio's atomic unit, the task step (connect_loop, the current _try_connect, the closing "
+         "waiters) with NONDETERMINISTIC scheduling and environment transitions close(), factory returns / raises, connection lost, clock "
+         "advance. Theorems (Props/C17.lean) over EVERY reachable state, every configuration: at_most_one_live (and the live one is "
+         "_connection); attempt_only_after_previous_ended; tasks_bounded (<= 3 pending tasks however many cycles); exited_clean (after "
+         "connect_loop returned every obtained transport is closed, no waiter is left, the connect task is finished or cancelled); "
+         "no_attempt_after_close; close_never_waits (after close() connect_loop returns at its very next step - no clock advance, no factory "
+         "result needed); exits_only_when_closing + no_deadlock (keeps reconnecting, never stuck); sleeps_backoff_time / "
+         "attempt_not_before_wake / backoff_follows_outcomes (C18 on the event loop). Correspondence: the REAL manager on a deterministic "
+         "virtual-time event loop with a scripted fake factory; close() injected at every loop iteration of every scenario; each observed "
+         "event trace must be a run of the model (trace inclusion by DFS over the scheduler nondeterminism in the driver) and is judged "
+         "directly against the statement incl. back-off timing bounds; runs of 3000-20000 reconnect cycles for the task bound.",
+    note=NOTE_COMMON + "Partial: the one-iteration latency between cancelling a task and its disappearance, threads, real sockets, "
+         "cancellation inside third-party factories and wall-clock time are not exhibited by the model.",
+    technique="Lean 4 proof (inductive invariant over all reachable states of a nondeterministic transition system) + trace inclusion of virtual-time executions",
+    design="5/C17")
+
 NOT_YET = {}
 
 
